@@ -51,6 +51,92 @@ fn tool_accepts(wd: &WorkDir, text: &str) -> bool {
     o.stderr_s().contains("not found")
 }
 
+
+/// A history whose names are near twins of one another (letter case, prefix, accent, composition): all are distinct
+/// names, so all are generated into ONE keyring; afterwards EVERY key must be usable under its own name with its own
+/// password - as sender (the file names exactly that key) and as recipient (only that key opens the file).
+fn near_twin_history(ctx: &Ctx) {
+    let families: Vec<Vec<&str>> = vec![
+        vec!["bob", "Bob", "BOB", "bobby", "bo", "b\u{f6}b", "bob\u{301}"],
+        vec!["Alice Example", "alice example", "Alice  Example", "Alice Example Jr", "Alice"],
+        vec!["k\u{e9}y", "ke\u{301}y", "KE\u{301}Y", "key"],
+    ];
+    let n = ctx.tier.pick(2, families.len());
+    crate::util::par_for(n, crate::util::ncpu(), |fi| {
+        let fam = &families[(fi + ctx.seed as usize) % families.len()];
+        let wd = WorkDir::new("c14t");
+        let mut made: Vec<(String, String)> = Vec::new(); // (name, password)
+        for (i, name) in fam.iter().enumerate() {
+            let pw = format!("pw-{}-{}", fi, i);
+            let before = std::fs::read(wd.file("twins.txt")).unwrap_or_default();
+            let o = Cmd::new(&wd.path, &["key", "generate", "-o", "twins.txt", "--env-pass"]).pass(&pw).stdin(Stdin::Bytes(format!("{}\n", name).into_bytes())).run();
+            ctx.eval();
+            let after = std::fs::read(wd.file("twins.txt")).unwrap_or_default();
+            if o.exit == Exit::Timeout {
+                ctx.inconclusive("C14: timeout");
+                return;
+            }
+            if o.exit != Exit::Code(0) {
+                // a tool may refuse a name; then the keyring must be untouched and the name simply is not part of the history
+                if after != before {
+                    ctx.violation("C14:failed-generation-destroyed-or-altered-the-keyring", json!({"name": name, "exit": o.exit.describe(), "stderr": o.stderr_s()}));
+                    return;
+                }
+                continue;
+            }
+            if after.len() <= before.len() || after[..before.len()] != before[..] {
+                ctx.violation("C14:previous-content-is-not-a-prefix-of-the-new-content:near-twin-names", json!({"name": name, "names_so_far": made.iter().map(|m| m.0.clone()).collect::<Vec<_>>(), "len_before": before.len(), "len_after": after.len()}));
+                return;
+            }
+            made.push((name.to_string(), pw));
+        }
+        let text = String::from_utf8_lossy(&std::fs::read(wd.file("twins.txt")).unwrap_or_default()).into_owned();
+        let secs = ref_parse(&text);
+        // what each NAME stands for, read independently from the file: the section with exactly that name
+        let mut ids: Vec<(String, String, [u8; 32], [u8; 32])> = Vec::new();
+        for (name, pw) in &made {
+            let sec = secs.iter().filter(|s| s.0.as_deref() == Some(name.trim())).collect::<Vec<_>>();
+            let sk = sec.first().and_then(|s| s.2.as_ref()).and_then(|l| refspec::unlock_sk(l, pw.as_bytes()).ok());
+            match (sec.len(), sk) {
+                (1, Some(sk)) => ids.push((name.clone(), pw.clone(), sk, refspec::pubkey_of(&sk))),
+                _ => {
+                    ctx.violation("C14:generated-key-missing-or-not-openable-with-its-password:near-twin-names", json!({"name": name, "sections_with_that_name": sec.len(), "names_in_file": secs.iter().map(|s| s.0.clone()).collect::<Vec<_>>()}));
+                    return;
+                }
+            }
+        }
+        if ids.len() < 2 {
+            ctx.inconclusive("C14 near-twin history: fewer than two names were accepted");
+            return;
+        }
+        wd.write("m.txt", b"to and from a near twin");
+        for i in 0..ids.len() {
+            let (name, pw, sk, pk) = &ids[i];
+            let (oname, _, osk, opk) = &ids[(i + 1) % ids.len()];
+            // NAME as sender: the file must carry NAME's own key as sender and open under the other's key
+            let e = Cmd::new(&wd.path, &["encrypt", "m.txt", "-t", oname, "-f", name, "-k", "twins.txt", "--env-pass"]).pass(pw).run();
+            ctx.eval();
+            let as_sender = e.exit == Exit::Code(0) && refspec::decode_key_file(&e.stdout, osk, opk).map(|d| d.body.complete() && d.sender == *pk).unwrap_or(false);
+            // NAME as recipient: a file made by the reference for NAME's key must be opened by `-t NAME` with NAME's password
+            let mut rng = Rng::fork(ctx.seed, &format!("C14-twin-{}-{}", fi, i));
+            let f = refspec::encode_key_file(osk, opk, pk, &rng.arr32(), &rng.arr32(), b"for you", &[7]).unwrap();
+            wd.write(&format!("r{}.ktl", i), &f);
+            let d = Cmd::new(&wd.path, &["decrypt", &format!("r{}.ktl", i), "-t", name, "-k", "twins.txt", "--env-pass"]).pass(pw).run();
+            ctx.eval();
+            let as_recipient = d.exit == Exit::Code(0) && d.stdout == b"for you";
+            let _ = sk;
+            if as_sender && as_recipient {
+                ctx.seen("near-twin names in one keyring: each key usable under its own name and password");
+                ctx.distinct(&format!("twin|{}|{}", fi, name));
+            } else {
+                ctx.violation("C14:generated-keys-not-usable-by-the-tool:near-twin-names", json!({"name": name, "other": oname, "names_in_keyring": ids.iter().map(|x| x.0.clone()).collect::<Vec<_>>(), "usable_as_sender": as_sender, "usable_as_recipient": as_recipient,
+                    "encrypt_exit": e.exit.describe(), "encrypt_stderr": e.stderr_s(), "decrypt_exit": d.exit.describe(), "decrypt_stderr": d.stderr_s()}));
+                return;
+            }
+        }
+    });
+}
+
 pub fn run(ctx: &Ctx) {
     ctx.rule(
         "histories of 1..6 `kestrel key generate -o F --env-pass` commands with distinct names and varied passwords from each initial state of F {absent, empty, one-key keyring with and \
@@ -332,6 +418,7 @@ pub fn run(ctx: &Ctx) {
             }
         }
     });
+    near_twin_history(ctx);
     crate::ttylanes::c14(ctx);
     ctx.require("tty: three typed generations into one file, all keys usable", 3);
     ctx.require("step that carries the file across a power-of-two size", 3);
@@ -341,5 +428,6 @@ pub fn run(ctx: &Ctx) {
     ctx.require("step into absent", 1);
     ctx.require("step into empty", 1);
     ctx.require("end of history", 4);
+    ctx.require("near-twin names in one keyring", 8);
     ctx.require("invalid name refused, keyring untouched", 5);
 }
